@@ -208,6 +208,8 @@ class Provenance(Monitor):
             self.rel_embed(args, kwargs, value, w, rp)
         elif point == 'mask':
             self.rel_mask(args, kwargs, value, w, rp)
+        elif point == 'forwards' and len(sig_inputs) == 2:
+            self.rel_forwards(sig_inputs, value, w, rp)
         elif point == '_mask':
             self.rel_partial(args, value, w, rp)
         elif point == 'signature' and translator is None:
@@ -433,6 +435,30 @@ class Provenance(Monitor):
                                   'sources of %r in an embed result differ from those of the only input declaring it' % p.name,
                                   w, rp)
                     break
+
+    def rel_forwards(self, sigs_in, value, w, rp):
+        """forwards(outer, inner, ...): whatever is bound or hidden on the way, every callable behind the inner
+        signature ends up one level below where it was, the outer's stay where they are (smallest depth wins)."""
+        ctx = self.ctx
+        ctx.count('C08.rel_forwards')
+        want = {}
+        for i, s in enumerate(sigs_in):
+            for c, d in s.sources.get(DEPTHS, {}).items():
+                if id(c) not in want or d + i < want[id(c)]:
+                    want[id(c)] = d + i
+        got = {id(c): d for c, d in value.sources[DEPTHS].items()}
+        if got != want:
+            ctx.violation('C08', 'Provenance', 'forwards-depths',
+                          'depths of a forwards result are not: outer as they were, inner one level deeper (smallest wins)', w, rp)
+            return
+        outer, inner = sigs_in
+        for p in value.parameters.values():
+            if p.kind in (p.VAR_POSITIONAL, p.VAR_KEYWORD) or p.name in outer.parameters or p.name not in inner.parameters:
+                continue
+            if {id(c) for c in value.sources.get(p.name, ())} != {id(c) for c in inner.sources.get(p.name, ())}:
+                ctx.violation('C08', 'Provenance', 'forwards-sources-not-inner',
+                              'sources of %r in a forwards result differ from those of the inner signature, the only one declaring it' % p.name, w, rp)
+                break
 
     def rel_mask(self, args, kwargs, value, w, rp):
         ctx = self.ctx
